@@ -69,8 +69,18 @@ def oracle_fwd_grad(ck, filt, J, shape, o, ri, skm, inm, named, tol, force=None,
     outs = outs_of(x)
     from ..gradcheck import pull_variants
     err = 0.0
+    bad2 = []
+
+    def second(idx, us, jv):
+        # d/dg <u, J^T g> = J u
+        want2 = Jm.T @ us[0].reshape(-1)
+        e2 = float((flat(jv) - want2).abs().max())
+        if not (e2 <= tol * max(1.0, float(want2.abs().max()))):
+            bad2.append('the pull-back differentiated once more: |d<u, J^T g>/dg - J u| = %.3g' % e2)
     try:
-        for label, eff, grads in pull_variants(rng, outs, [x], lambda t: T(gen.int_tensor(rng, tuple(t.shape), 3))):
+        for label, eff, grads in pull_variants(rng, outs, [x], lambda t: T(gen.int_tensor(rng, tuple(t.shape), 3)), second=second):
+            if bad2:
+                ck.fail(desc + ' [%s]' % bad2[0], replay); return 'diff2'
             g = grads[0] if grads[0] is not None else torch.zeros_like(x)
             want = Jm @ flat(eff)
             e1 = float((g.reshape(-1) - want).abs().max())
@@ -113,8 +123,18 @@ def oracle_inv_grad(ck, filt, J, H, W, o, ri, mask, named, tol, force=None):
                 base[i].reshape(-1)[k] = 0
             blocks[i] = torch.stack(rows)
     worst = 0.0
+    bad2 = []
+    req = [i for i, t in enumerate(ins) if t.requires_grad]
+
+    def second(idx, us, jv):
+        want2 = sum(blocks[req[i]].T @ u.reshape(-1) for i, u in zip(idx, us))
+        e2 = float((jv[0].reshape(-1) - want2).abs().max())
+        if not (e2 <= tol * max(1.0, float(want2.abs().max()))):
+            bad2.append('the pull-back differentiated once more: |d<u, J^T g>/dg - J u| = %.3g' % e2)
     try:
-        for label, eff, grads in pull_variants(rng, [y], need, lambda t: T(gen.int_tensor(rng, tuple(t.shape), 3)), repeats=3):
+        for label, eff, grads in pull_variants(rng, [y], need, lambda t: T(gen.int_tensor(rng, tuple(t.shape), 3)), repeats=3, second=second):
+            if bad2:
+                ck.fail(desc + ' [%s]' % bad2[0], replay); return 'diff2'
             it = iter(grads)
             for i, t in enumerate(ins):
                 if not t.requires_grad:
